@@ -48,7 +48,7 @@ class Gen8(MG.Gen):
         elif r < 0.82:
             spec = {"family": "gaussian", "mean": (lo + w / 2).hex(), "sigma": (w / 4).hex(),
                     "lo": rng.choice(["-inf", lo.hex()]), "hi": "inf"}
-        elif r < 0.96:
+        elif r < 0.975:
             lo = abs(lo) + 0.25
             spec = {"family": "loguniform", "lo": lo.hex(), "hi": (lo + w).hex()}
         else:
@@ -153,7 +153,7 @@ def gen_case(ctx):
     feats = set(prog["features"])
     c = {"program": prog, "passed": [], "dicts": [], "asserts": []}
     # --- components without free parameters
-    if rng.random() < 0.3:
+    if rng.random() < 0.22:
         cands = [(p, n) for p, n in levels(root) if p and n["t"] == "model"]
         rng.shuffle(cands)
         for p, n in cands[:rng.choice([1, 1, 2])]:
@@ -191,7 +191,7 @@ def gen_case(ctx):
     for k in c["passed"]:
         passed_refs |= set(refs_in(dict(root["items"])[k]))
     # --- copies: Prior.new() and Prior.with_limits() (both keep the message object of the original)
-    if rng.random() < 0.3:
+    if rng.random() < 0.2:
         occ = []
 
         def collect(e):
@@ -235,7 +235,7 @@ def gen_case(ctx):
     lv = [p for p, n in levels(root) if refs_in(n) and not any(p[:1] == [k] for k in c["passed"])]
     if assertable and lv and rng.random() < 0.4:
         for _ in range(rng.choice([1, 1, 2])):
-            if rng.random() < 0.7:
+            if rng.random() < 0.8:
                 a = gen_cmp(rng, assertable)
             else:
                 first = gen_cmp(rng, assertable)
@@ -490,6 +490,20 @@ def has_other(s):
     return any(has_other(v) for _, v in kids(s))
 
 
+def same_inst(a, b):
+    """C01.same_inst, with opaque leaves (strings, ...) compared by their description."""
+    if a["t"] != b["t"]:
+        return False
+    if a["t"] == "other":
+        return a.get("repr") == b.get("repr")
+    if a["t"] == "tup":
+        return len(a["vs"]) == len(b["vs"]) and all(same_inst(x, y) for x, y in zip(a["vs"], b["vs"]))
+    if a["t"] in ("obj", "coll"):
+        return (a.get("cls") == b.get("cls") and len(a["fields"]) == len(b["fields"])
+                and all(x[0] == y[0] and same_inst(x[1], y[1]) for x, y in zip(a["fields"], b["fields"])))
+    return C01.same_inst(a, b)
+
+
 def compare_states(prev, nxt, form):
     """The property between a model and its reloaded form. Returns [(clause, message)].
     Clauses `paths`/`instance` state the property text literally (values supplied per PATH); the
@@ -550,7 +564,7 @@ def compare_states(prev, nxt, form):
     if "ok" in ia:
         if "ok" not in ib:
             out.append(("instance-pos", "instance_from_path_arguments raised %s on the reloaded model" % ib.get("exc")))
-        elif not C01.same_inst(ia["ok"], ib["ok"]):
+        elif not same_inst(ia["ok"], ib["ok"]):
             out.append(("instance-pos", "supplying the same values yields a different instance"))
         if {tuple(p): v for p, v in prev["pv"]} != {tuple(p): v for p, v in nxt["pv"]} and not any(k == "paths" for k, _ in out):
             out.append(("paths", "the path arguments differ"))
@@ -621,6 +635,11 @@ def classes_for(c, step_index, clause):
     if clause == "paths" and "arith" in feats and form in ("dict", "db"):
         out.append("arith-names")
     if clause in ("partition", "partition-pos", "order-pos", "instance-pos", "derived-pos", "assertions-pos") and form == "db" and feats & {"new", "with_limits", "passed"}:
+        out.append("db-message-id")
+    # a database trip that merged copies leaves several prior OBJECTS with one id: whatever follows starts from that
+    if ("db" in forms[:-1] and feats & {"new", "with_limits", "passed"}
+            and clause in ("paths", "partition", "partition-pos", "order-pos", "instance-pos", "derived-pos", "assertions-pos",
+                           "spec-pos", "structure-pos")):
         out.append("db-message-id")
     if clause == "exception:AttributeError" and form == "db":
         if "assert-chain" in feats:
@@ -940,7 +959,7 @@ def run_array_oracle(ctx, c, r):
     if "exc" in r["steps"][0]:
         ctx.oracle["failures"] += 1
         ctx.failure("oracle", "%s model: %s round trip raised %s" % (c["kind"], form, r["steps"][0]["exc"]), c, classes=classes, impl=r)
-    elif "inst" in r and ("ok" not in r["inst"][1] or not C01.same_inst(r["inst"][0]["ok"], r["inst"][1]["ok"])):
+    elif "inst" in r and ("ok" not in r["inst"][1] or not same_inst(r["inst"][0]["ok"], r["inst"][1]["ok"])):
         ctx.oracle["failures"] += 1
         ctx.failure("oracle", "%s model: instance differs after %s round trip" % (c["kind"], form), c, classes=classes, impl=r)
     elif r["count"][0] != r["count"][1] or r["paths"][0] != r["paths"][1]:
